@@ -1,5 +1,6 @@
 import Proofs.C01.Ladders
 import Proofs.C01.Arith
+import Proofs.C01.Entry
 import Proofs.C01.JacRefine
 import Proofs.C01.JacMult
 /-!
@@ -133,6 +134,26 @@ theorem dispatch_irrelevant (hf : L.Functional) (sel : Select α) (hsel : Select
     L.R r (tsum L (scalars.zip points)) :=
   multiMultVar_spec L hf sel hsel isFixed fixedW scalarLen _ _ _ hfw scalars points hpts h
 end Ladders
+
+/-! ## T8 — public entry points (pure-Python path, every curve but secp256k1) -/
+section Entry
+variable {α β G : Type} [AddCommGroup G]
+
+/-- `mult(m, Q, ec) = m • Q` for EVERY integer `m` (negative, ≥ n, multiples of n), generator and infinity included -/
+theorem mult_entry (c : CurveCtx α β) (L : JacRel c.o G) (hsecp : c.isSecp = false) (hn0 : 0 < c.n) {lam : ℤ}
+    (hlam : L.blindOk lam) (m : ℤ) {Q A : β} {g : G} (hQ : L.RA Q g)
+    (hG : c.eqAff Q c.G = true → L.R c.GJ g) (hn : (c.n : ℤ) • g = 0)
+    (h : multEntry c lam m Q = some A) : L.RA A (m • g) := multEntry_spec c L hsecp hn0 hlam m hQ hG hn h
+
+/-- a point failing `is_on_curve` is refused rather than answered -/
+theorem mult_entry_refuses_off_curve (c : CurveCtx α β) (lam m : ℤ) (Q : β) (hq : c.eqAff Q c.G = false)
+    (hoff : c.onCurve Q ≠ some true) : multEntry c lam m Q = none := multEntry_refuses c lam m Q hq hoff
+
+theorem prepared_mult (c : CurveCtx α β) (L : JacRel c.o G) (hsecp : c.isSecp = false) (hn0 : 0 < c.n) {lam : ℤ}
+    (hlam : L.blindOk lam) (m : ℤ) {Q A : β} {g : G} (hQ : L.RA Q g)
+    (hG : c.eqAff Q c.G = true → L.R c.GJ g) (hn : (c.n : ℤ) • g = 0)
+    (h : preparedMult c lam Q m = some A) : L.RA A (m • g) := preparedMult_spec c L hsecp hn0 hlam m hQ hG hn h
+end Entry
 
 /-! ### non-vacuity: the hypothesis bundle is satisfiable (integers under addition) and the ladders answer -/
 
